@@ -221,6 +221,10 @@ BOUNDED = [
      'assumed contracts of PrimeFactors::partition_factors / has_factors_leq / has_factors_gt / product_above (iterator code); bound: all n below the limit plus structured prime-power products below 2^40'),
     ('plan_scalar', ['C04', 'C05', 'C10'], 'plan_scalar:768', 'plan_scalar:12288',
      'assumed contracts of design_butterfly_product and of the constructors not under contract, end to end through FftPlannerScalar<f64>::plan_fft (both directions, fresh planner): no panic, len, direction, scratch <= 12n+64; bound: all n below the limit plus structured lengths below 2^18'),
+    ('plan_history', ['C06', 'C10'], 'plan_history:quick', 'plan_history:thorough',
+     'history quantifier of C10/C06 on FftPlannerScalar<f64>: every request sequence of length <= 2 over 14 related lengths x 2 directions and of length 3 over 6 lengths x 2 directions (thorough: 20 / 11 lengths): no panic, right length and direction, output bit-identical to a fresh planner'),
+    ('shapes', ['C03', 'C09', 'C15'], 'shapes:96', 'shapes:700',
+     'real transforms (all 21 butterflies, Dft, every FftPlannerScalar<f64> length below the limit) called through the three explicit-scratch entry points with canary-guarded caller buffers in every shape around the valid one (data lengths 0,1,n-1,n,n+1,2n-1,2n,2n+1,3n; output equal / +-1 / +-n; scratch 0, adv-1, adv, adv+1): ill-shaped panics, well-shaped returns, canaries and immutable input intact; debug-assertion UB checks of get_unchecked abort the run and are reported'),
     ('sqrt_limit', ['C04'], 'sqrt_limit', 'sqrt_limit', 'A-sqrt: ((m*m) as f32).sqrt() as usize >= m for every m < 2^24 on this CPU (exhaustive)'),
     ('MixedRadix', ['C08', 'C09', 'C12'], 'MixedRadix', 'MixedRadix', 'scratch-content independence (C08 iii) and panic-freedom of the real wrapper over contract-checking stubs; bound: inner lengths <= 4, inner scratch needs in {0,1,len-1,len,len+1,2len+3,3len^2+1}'),
     ('MixedRadixSmall', ['C08', 'C09', 'C12'], 'MixedRadixSmall', 'MixedRadixSmall', 'same, MixedRadixSmall'),
@@ -255,6 +259,11 @@ def run_bounded(prop, tier):
             return {'name': 'bn:' + b[0], 'status': 'inconclusive', 'reason': 'timeout', 'arg': arg, 'stands_in_for': b[4]}
         out = p.stdout.strip()
         r = {'name': 'bn:' + b[0], 'arg': arg, 'wall_s': round(time.time() - t1, 2), 'stands_in_for': b[4], 'kind': 'bounded-native'}
+        if p.returncode not in (0, 1):
+            # the real code crashed (e.g. `unsafe precondition(s) violated` abort from a debug-assertion build)
+            errl = [l for l in p.stderr.split('\n') if l.strip()]
+            case = [l for l in errl if l.startswith('CASE ')]
+            out = 'WITNESS %s: process terminated abnormally (exit status %s) %s: %s' % (arg, p.returncode, ('in ' + case[-1][5:]) if case else '', ' | '.join([l for l in errl if not l.startswith('CASE ')][-3:]))
         if out.startswith('WITNESS'):
             r['status'] = 'fail'
             r['failure'] = {'obligation': 'bn:%s' % b[0], 'function': b[0], 'message': 'bounded check found a failing input', 'where': [],
